@@ -9,6 +9,7 @@ import (
 	"strings"
 	"sync"
 	"time"
+	"unicode/utf8"
 
 	sdk "github.com/cosmos/cosmos-sdk/types"
 	banktypes "github.com/cosmos/cosmos-sdk/x/bank/types"
@@ -177,8 +178,26 @@ func contentJobs(e *env, baseTime int64) []contentJob {
 			jobs = append(jobs, contentJob{feedsCase(l, 0, e.tt), baseTime}, contentJob{feedsCase(l, 3, e.tt), baseTime})
 		}
 	}
-	// signal ids outside the 32-byte limit
+	// signal ids outside the 32-byte limit (must be refused) and multi-byte UTF-8 ids around the limit
 	jobs = append(jobs, contentJob{feedsCase([]feedState{{ID: strings.Repeat("z", 33), Present: true, Price: 1}}, 1, e.tt), baseTime})
+	legalMB, longMB := multiByteIDs()
+	for _, enc := range []int32{1, 2} {
+		for _, id := range append(append([]string{}, legalMB...), longMB...) {
+			for _, st := range []feedState{{ID: id}, {ID: id, Present: true, Price: 5_000_000_000}} {
+				jobs = append(jobs, contentJob{feedsCase([]feedState{st}, enc, e.tt), baseTime},
+					contentJob{feedsCase([]feedState{{ID: "a", Present: true, Price: 1}, st}, enc, e.tt), baseTime})
+				if st.Present {
+					jobs = append(jobs, contentJob{tunnelOrderCase(1, []feedState{st}, baseTime, enc, e.tt), baseTime})
+				}
+			}
+		}
+		// an over-long id next to the legal id that is its last 32 bytes
+		for _, long := range longMB {
+			if suffix := long[len(long)-32:]; utf8.ValidString(suffix) {
+				jobs = append(jobs, contentJob{feedsCase([]feedState{{ID: long, Present: true, Price: 7}, {ID: suffix, Present: true, Price: 9}}, enc, e.tt), baseTime})
+			}
+		}
+	}
 	// (signal ids with leading NUL bytes, which a bytes32 cannot carry, are exercised through the real
 	// MsgRequestSignature handler in section "direct")
 	// tunnel packets (content-supplied values)
@@ -240,6 +259,13 @@ func directContentCases(e *env) []contentCase {
 		b.w.App.FeedsKeeper.SetPrice(ctx, feedstypes.NewPrice(feedstypes.PRICE_STATUS_AVAILABLE, "CS:BTC-USD", 5_000_000_000, 1_600_000_000))
 	}
 	cs = append(cs, nul)
+	// user-supplied multi-byte signal ids at and above the 32-byte limit
+	e16, e17 := strings.Repeat("\u00e9", 16), strings.Repeat("\u00e9", 17)
+	for _, enc := range []int32{1, 2} {
+		cs = append(cs, feedsCase([]feedState{{ID: e16, Present: true, Price: 5_000_000_000}}, enc, e.tt),
+			feedsCase([]feedState{{ID: e17, Present: true, Price: 5_000_000_000}}, enc, e.tt))
+	}
+	cs = append(cs, feedsCase([]feedState{{ID: "x" + strings.Repeat("\U0001F600", 8)}}, 1, e.tt))
 	return cs
 }
 
@@ -308,6 +334,18 @@ func runDirect(e *env, t tally) {
 			res := b.requestSignature(ctx, j.c, j.sender, j.memo)
 			payload, canon, ok := j.c.want(j.unix)
 			inStatement := ok && len(j.memo) <= 100
+			if j.c.mustReject != "" {
+				if res.OK() {
+					detail := fmt.Sprintf("%s: %s, yet the request was accepted", input, j.c.mustReject)
+					if m, err := b.signingMessage(ctx, id); err == nil {
+						detail += "; the group signs " + short(m)
+					}
+					t.Violate(cfg, path, "content:signal-id-longer-than-32-bytes-encoded:direct:"+j.c.kind, detail)
+				} else {
+					t.Saw("direct:" + j.c.kind + ":oversize-signal-id-rejected")
+				}
+				return
+			}
 			if !res.OK() {
 				t.Saw("direct:" + j.c.kind + ":" + j.c.tag + ":rejected:" + res.ErrName())
 				if res.Panic != "" {
